@@ -477,16 +477,43 @@ fn market_obs(e: MarketStreamResult<u32, PublicTrade>) -> Obs {
 
 const ACCOUNT_EXCHANGE: ExchangeId = ExchangeId::BinanceSpot;
 
-/// Attempt k = the k-th call of `account_stream` (stamped like every other attempt) followed by `account_snapshot`.
-/// A failing attempt with odd k fails in `account_stream`, one with even k in `account_snapshot` (at the same
-/// virtual instant). The snapshot of attempt k carries k as its balance, the updates carry their item id.
+/// Attempt k consists of (at most) one call of `account_stream` and one call of `account_snapshot` - in either order
+/// or concurrently: the statement says nothing about how an attempt is put together. A client call opens a new
+/// attempt when there is none yet or when the current attempt has already seen a call of that method; the attempt
+/// is stamped (like every other attempt) when it is opened. `account_stream` takes the scripted latency,
+/// `account_snapshot` none. A failing attempt with odd k fails in `account_stream`, one with even k in
+/// `account_snapshot` (the stream of such an attempt comes up and is never polled). The attempt's end stamp is the
+/// instant its outcome is known: the failure of the failing call, else the later of the two completions. The
+/// snapshot of attempt k carries k as its balance, the updates carry their item id.
 #[derive(Clone)]
 pub struct ScriptAcct {
     sh: Arc<Shared>,
     script: Arc<Vec<Option<String>>>,
     lat: u64,
     pace: u64,
-    fail_snapshot: Arc<AtomicBool>,
+    /// (account_stream called, account_snapshot called) in the current attempt
+    seen: Arc<Mutex<(bool, bool)>>,
+}
+impl ScriptAcct {
+    /// The attempt this client call belongs to (opens - and stamps - a new one if need be).
+    fn attempt_of_call(&self, is_stream: bool) -> usize {
+        let mut seen = self.seen.lock().unwrap();
+        let mut g = self.sh.log.lock().unwrap();
+        let already = if is_stream { seen.0 } else { seen.1 };
+        if g.calls.is_empty() || already {
+            let start = self.sh.now();
+            g.calls.push(Call { start, end: None, ok: false });
+            *seen = (false, false);
+            if let Some(w) = self.sh.poke.lock().unwrap().as_ref() {
+                w.wake_by_ref();
+            }
+        }
+        if is_stream { seen.0 = true } else { seen.1 = true }
+        g.calls.len() - 1
+    }
+    fn scripted(&self, k: usize) -> Option<String> {
+        self.script.get(k).cloned().flatten()
+    }
 }
 pub struct AcctConn(Conn, AssetNameExchange);
 impl Stream for AcctConn {
@@ -519,10 +546,18 @@ impl ExecutionClient for ScriptAcct {
         assets: &[AssetNameExchange],
         _: &[InstrumentNameExchange],
     ) -> impl Future<Output = Result<UnindexedAccountSnapshot, UnindexedClientError>> + Send {
-        let k = self.sh.log.lock().unwrap().calls.len() - 1;
-        let r = if self.fail_snapshot.swap(false, Ordering::SeqCst) {
+        let k = self.attempt_of_call(false);
+        let now = self.sh.now();
+        let r = if self.scripted(k).is_none() && k % 2 == 0 {
+            // the attempt's outcome is known now
+            self.sh.log.lock().unwrap().calls[k].end = Some(now);
             Err(UnindexedClientError::AccountSnapshot("scripted snapshot failure".into()))
         } else {
+            // (the later of the two completions ends the attempt)
+            let mut g = self.sh.log.lock().unwrap();
+            if g.calls[k].end.is_some() {
+                g.calls[k].end = Some(now);
+            }
             Ok(UnindexedAccountSnapshot { exchange: ACCOUNT_EXCHANGE, balances: vec![account_balance(assets[0].clone(), k as u32)], instruments: vec![] })
         };
         std::future::ready(r)
@@ -533,18 +568,24 @@ impl ExecutionClient for ScriptAcct {
         _: &[InstrumentNameExchange],
     ) -> impl Future<Output = Result<AcctConn, UnindexedClientError>> + Send {
         let asset = assets[0].clone();
-        let k = self.sh.log.lock().unwrap().calls.len();
-        let fut = attempt(&self.script, self.lat, self.pace, &self.sh);
-        let fail_snapshot = self.fail_snapshot.clone();
+        let k = self.attempt_of_call(true);
+        let entry = self.scripted(k);
+        let (sh, lat, pace) = (self.sh.clone(), self.lat, self.pace);
         async move {
-            match fut.await {
-                Ok(conn) => Ok(AcctConn(conn, asset)),
-                Err(_) if k % 2 == 0 => {
-                    // the stream comes up (and is never polled), fetching the snapshot fails
-                    fail_snapshot.store(true, Ordering::SeqCst);
-                    Ok(AcctConn(Conn { conn: k, syms: vec![], pos: 0, pace: 0, sleep: None }, asset))
-                }
-                Err(_) => Err(UnindexedClientError::Connectivity(ConnectivityError::Socket("scripted connection attempt failed".into()))),
+            if lat > 0 {
+                tokio::time::sleep(Duration::from_millis(lat)).await;
+            }
+            {
+                let mut g = sh.log.lock().unwrap();
+                let now = sh.now();
+                g.calls[k].end = Some(now);
+                g.calls[k].ok = entry.is_some();
+            }
+            match entry {
+                Some(word) => Ok(AcctConn(Conn { conn: k, syms: word.into_bytes(), pos: 0, pace, sleep: None }, asset)),
+                // the stream comes up (and is never polled), fetching the snapshot fails
+                None if k % 2 == 0 => Ok(AcctConn(Conn { conn: k, syms: vec![], pos: 0, pace: 0, sleep: None }, asset)),
+                None => Err(UnindexedClientError::Connectivity(ConnectivityError::Socket("scripted connection attempt failed".into()))),
             }
         }
     }
@@ -656,7 +697,11 @@ fn horizon(case: &Case) -> u64 {
     let n = case.script.len() as u64;
     let fails = case.script.iter().filter(|a| a.is_none()).count() as u64 + case.extra as u64;
     let syms: u64 = case.script.iter().flatten().map(|w| w.len() as u64 + 1).sum();
-    (n + case.extra as u64) * case.lat + syms * case.pace + fails * case.policy.2.max(case.policy.0) + 10
+    // The statement does not say how soon after a dropped connection the next attempt is made: the observation
+    // allows every scripted connection one maximum backoff between its end and the attempt that follows it (an
+    // observation has to stop somewhere; this is the machinery's bound, stated in `assumptions`).
+    let oks = n - case.script.iter().filter(|a| a.is_none()).count() as u64;
+    (n + case.extra as u64) * case.lat + syms * case.pace + (fails + oks) * case.policy.2.max(case.policy.0) + 10
 }
 
 /// Run one case against the real code.
@@ -726,7 +771,7 @@ fn execute(case: &Case) -> Observation {
                 script: Arc::new(case.script.clone()),
                 lat: case.lat,
                 pace: case.pace,
-                fail_snapshot: Arc::new(AtomicBool::new(false)),
+                seen: Arc::new(Mutex::new((false, false))),
             };
             let requests = futures::stream::pending::<ExecutionRequest<ExchangeIndex, InstrumentIndex>>();
             // (the manager owns the response channel that is merged into the account stream: it is kept alive, as a
@@ -2290,9 +2335,9 @@ pub fn run(ctx: &Ctx) -> Outcome {
             "the first connection attempt succeeds (init_reconnecting_stream returns Err otherwise; the statement speaks about re-initialisation)".into(),
             "backoff policies have 1 <= initial <= max and multiplier >= 1; waits are compared exactly in virtual milliseconds".into(),
             "connections are finite words over {item, recoverable error, terminal error} followed by end-of-stream; all attempts after the script fail".into(),
-            "the statement is silent on (a) whether the terminal error itself is passed on, (b) the delay between a dropped connection and the next attempt, (c) ready items of the other merge input when one input ends, (d) whether forward_to stops after a failed send: all accepted, (c) and (d) counted as informational".into(),
+            "the statement is silent on (a) whether the terminal error itself is passed on, (b) the delay between a dropped connection and the next attempt (the observation allows up to the configured maximum backoff per connection before it reports missing progress), (c) ready items of the other merge input when one input ends, (d) whether forward_to stops after a failed send: all accepted, (c) and (d) counted as informational".into(),
             "merge / forward_to inputs are barter_integration mpsc_unbounded channels; a 'poll' is repeated while the subject wakes itself; wake-ups are synchronous with the push / close that causes them (no runtime is involved in layers 2 and 3)".into(),
-            "Account mode: the connection the manager initialises is the account snapshot followed by the account stream, so the snapshot is the first item of every connection; a failing attempt fails in account_stream (odd attempts) or in account_snapshot (even attempts); account connections carry no error items; the notice names the ExchangeId of the instrument map".into(),
+            "Account mode: the connection the manager initialises is the account snapshot followed by the account stream, so the snapshot is the first item of every connection; an attempt is one account_stream call and one account_snapshot call in either order or concurrently; a failing attempt fails in account_stream (odd attempts) or in account_snapshot (even attempts); account connections carry no error items; the notice names the ExchangeId of the instrument map".into(),
             "Builder modes: the configured policy is the crate's constant STREAM_RECONNECTION_POLICY; the reconnecting stream runs in the task the builder spawns (on the paused current-thread runtime), the harness reads the exchange channel; the second subscription's connection yields an item every 50 virtual ms for longer than the observation lasts (errors and notices name only the exchange and could not be attributed, so it has none)".into(),
             "DynamicStreams layer: only the arms of connectors whose URL can be pointed at loopback (Binance, cfg hook) and that need no REST snapshot are driven (2 of 21); real sockets and clock, so only order / multiplicity of what arrives is judged; error items caused by the venue closing a connection are accepted in any number".into(),
             "Market mode: which DataErrors are terminal is not part of the statement - the real DataError::is_terminal is asked about the two errors the script symbols are rendered as (Socket, InvalidSequence); a rule broken in Market mode only is reported with the suffix /init_market_stream".into(),
